@@ -42,8 +42,9 @@ CLASSES = ["bad_first_byte", "bad_block_type", "zero_in_ps",
            "no_separator", "sep_early", "len0", "len1", "len47", "len49",
            "lenmax", "ver_plus", "ver_below", "ver_between", "ver_negotiated",
            "ver_zero", "ver_ffff",
-           "ge_n", "short_ct", "long_ct"]
-PUBLIC = ("ge_n", "short_ct", "long_ct")
+           "ge_n", "short_ct", "long_ct", "ct_empty", "ct_eq_n",
+           "ct_n_minus_1", "ct_zero", "ct_one", "ct_all_ff"]
+PUBLIC = ()
 PROBES = [c for c in CLASSES] + ["sslv3", "tls10", "tls11", "tls12", "client_auth", "etm",
                     "no_ems", "client_max_higher"]
 COMPONENTS_REAL = ["tlslite server: RSAKeyExchange.processClientKeyExchange,"
@@ -136,6 +137,24 @@ def craft(cls, n, e, k, chver, rng, negver=None):
     elif cls == "long_ct":
         c = pow(int.from_bytes(em(pms()), "big"), e, n)
         return b"\x00" + c.to_bytes(k, "big"), used[0]
+    elif cls == "ct_empty":
+        pms()
+        return b"", used[0]
+    elif cls == "ct_eq_n":
+        pms()
+        return n.to_bytes(k, "big"), used[0]
+    elif cls == "ct_n_minus_1":
+        pms()
+        return (n - 1).to_bytes(k, "big"), used[0]
+    elif cls == "ct_zero":
+        pms()
+        return bytes(k), used[0]
+    elif cls == "ct_one":
+        pms()
+        return (1).to_bytes(k, "big"), used[0]
+    elif cls == "ct_all_ff":
+        pms()
+        return b"\xff" * k, used[0]
     else:
         raise ValueError(cls)
     assert len(E) == k, (cls, len(E), k)
@@ -259,6 +278,11 @@ def run(job, streams=None):
         for c, t in sorted(secret.items()):
             if t != ref:
                 diff = [k for k in ref if ref[k] != t[k]]
+                if c in ("short_ct", "long_ct", "ct_empty"):
+                    # the ClientKeyExchange itself has another length
+                    diff = [k for k in diff if k != "consumed"]
+                if not diff:
+                    continue
                 v("oracle", "%s|%s" % (c, ",".join(diff)),
                   "server's wire behaviour for class %s differs from class "
                   "%s in %s: %r vs %r" % (c, ref_cls, diff,
